@@ -33,6 +33,26 @@ CHECKS = {
          "Held on 201 (quick) / 499 (thorough) uninterrupted real plots at bit lengths 8-20 and 24 across 33-71 distinct window shapes: every table entry equalled the reference construction and was sound, and every bl-24 challenge was served a verifying proof exactly when the construction has one. Bit lengths >= 26, real low-memory conditions (emulated by the hook) and resumed plots (C10) are not covered.",
          "trusts mass-core pocutil.P/F/FlipValue and poc.VerifyProof as the definition of the construction; refplot self-checked at start-up",
          "DESIGN.md §3 C07"),
+ "C11": ("exploration", "seeded plot-directory/history exploration of the real keeper with hook-gated plotter (H3), per-operation file-system diff oracle, independent reference indexer, strace attribution of unlink/rename/truncate (thorough)",
+         "Real keeper, real plot files and a real wallet over seeded plot directories (27 file classes across 1-3 directories) and gated action histories: a full directory listing is compared before and after every operation (only an accepted Delete, the end-of-plot removal of map A and the documented legacy rename may remove or rename plot files), Remove/Delete must be refused while plotting or mining, and every start-up/restart index is judged file by file against an independent reference indexer (header vs name, wallet key and ordinal, duplicates, recorded progress). Held = on the scenarios executed; file creation at start-up is observed, not judged (the statement forbids deletion).",
+         "tables of bit length >= 24 are fabricated headers / sparse files, so 'never serves proofs from rejected files' is observed as absence of a proof object; trusts the harness reference indexer (cross-checked against the generator's own expectation in every scenario)",
+         "DESIGN.md §3 C11"),
+ "C12": ("fault_enumeration", "fault-injecting db.DB around the real leveldb store: every bucket write and every commit of every operation failed or crashed (sentinel panic), reopen-equals-none-or-all oracle; plus real SIGKILL of a child process executing acknowledged histories",
+         "For each operation of each seeded history the writes w and commits c are measured on a copy, then the operation is replayed once per fault point (failed k-th write, failed commit, crash before commit, crash after commit), the store is reopened without faults and must open and show the complete effect or none (observable snapshot, private-passphrase acceptance per keystore, public passphrase that opens it); an operation that returned an error must leave the running instance unchanged, an acknowledged one must survive restart. The fault space of every explored operation is enumerated completely; operations and histories are sampled. Real kills: reopened state must be the acknowledged prefix or prefix plus the in-flight operation.",
+         "read faults are not injected (statement is about writes, commits, crashes); SIGKILL cannot lose page cache, so leveldb's own fsync discipline is exercised but not power loss; goleveldb transaction atomicity is trusted below the db interface",
+         "DESIGN.md §3 C12"),
+ "C14": ("exploration", "Go race detector over concurrent wallet histories in child processes (reports filtered to repository frames) + porcupine linearizability check of every recorded history against a sequential wallet model + quiescent-state inspection",
+         "2-4 goroutines issue mixed wallet operations on 1-2 keystores under -race; every call is recorded at the client boundary with one monotonic clock and every history is checked with porcupine against a sequential model (issued indices, lock flag, remark, export contents, lookups); race reports whose two accesses are both in repository code are violations, de-duplicated by function pair; a dead child is a crash; at the end the H4 locked-memory invariant and reopen equality are checked. Held = no report / all histories linearizable in this run.",
+         "race detector only sees executed interleavings; porcupine timeout (60 s) = dropped case; model allows Unlock(current) to fail on an already unlocked wallet (sequential behaviour of the code)",
+         "DESIGN.md §3 C14"),
+ "C15": ("exploration", "seeded scenario exploration of the real capacity keeper, wallet, massdb.v1 header-only plot files and api.Server capacity handlers with an arithmetic and directory-listing oracle, plus restart comparison",
+         "Scenarios run ConfigureBySize/ByPath/ByBitLength/ByFlags, the API capacity handlers, removals and keeper restarts over 0-6 pre-existing spaces in 1-3 directories; every call is judged from returned infos, directory listings before/after and disk.Usage free space for size arithmetic (sum <= request, gap < smallest plot), reuse-before-create, directory placement, exact counts, rejection without files (incl. overflow-sized requests), and re-discovery after restart. Held = on the scenarios executed, bit lengths 24-30, nothing plotted.",
+         "free disk space is read with the same gopsutil call the code uses, requests near the boundary are not judged; trusts mass-core PlotSize",
+         "DESIGN.md §3 C15"),
+ "C16": ("exploration", "seeded generators with real BLS elements + structure-aware JSON/type-prefix/hex/BLS-point mutator over valid encodings, child-process batches with progress-file crash attribution, hang/RSS watchdog and per-input allocation accounting; thorough re-runs a slice under go build -asan",
+         "Every generated message of the six types is encoded and decoded by the real codec and compared field by field; every mutated or random byte string up to the 2 MiB receive limit is decoded in a child process, where a panic, process death, over 10 s or allocation above 256 x len + 64 MiB for one input, or an accepted message that is malformed or does not re-encode to itself is a violation. Held = on the inputs of this run.",
+         "the prebuilt BLS archives are not instrumented (asan sees only intercepted libc calls); allocation bound is a proxy for 'exhausts memory'",
+         "DESIGN.md §3 C16"),
  "C18": ("exploration", "independent BIP32/BIP39 reference oracle over seeded and searched (leading-zero) seeds/paths/entropies",
          "Every derivation step the run produces (private, public, hardened, normal, after string round trip) is compared with an independent reference validated against the published vectors; seeds and child indices are searched so that short private scalars occur in every run. Held = on all derivations of this run.",
          "trusts internal/ref (self-checked against BIP32 vectors 1-4 and BIP39 English vectors at start-up), Go's crypto/hmac, sha512, math/big",
